@@ -24,9 +24,9 @@ theorem gramStep_commit {g : GState} {hi : Nat} {f : List Nat} {l : Nat} {x : St
   | idle => simp [gramStep] at h
   | inTxn y =>
     simp only [gramStep] at h
-    by_cases hc : x = y ∧ hi < l
-    · simp only [hc, and_self, ↓reduceIte] at h
-      obtain ⟨rfl, _⟩ := hc
+    by_cases hc : x = y
+    · simp only [hc, ↓reduceIte] at h
+      subst hc
       by_cases hcl : hasClose as = true <;> simp [hcl] at h <;> exact ⟨rfl, h.1.symm⟩
     · simp [hc] at h
 
